@@ -362,6 +362,42 @@ func TestVerifC20(t *testing.T) {
 				}
 			}
 		}
+		// the working directory has been REMOVED: a relative spelling can then not be made absolute
+		// (Getwd fails), yet `..` still leads out of it and into the protected directory
+		orig, _ := os.Getwd()
+		gone := filepath.Join(fix, "gone", "inner")
+		os.MkdirAll(gone, 0o755)
+		if err := os.Chdir(gone); err == nil {
+			os.RemoveAll(filepath.Join(fix, "gone"))
+			os.Unsetenv("PWD")
+			for _, tail := range []string{"/safe/newdb2", "/db", "/brandnew2"} {
+				for _, ro := range []bool{false, true} {
+					p := strings.Repeat("../", 40) + strings.TrimPrefix(prot, "/") + tail
+					before := snapshot()
+					VerifFS = nil
+					opts := DefaultPebbleScannerOptions()
+					opts.ReadOnly = ro
+					sc, err := NewPebbleScanner(p, opts)
+					if sc != nil {
+						sc.Close()
+					}
+					after := snapshot()
+					r.Eval()
+					key := fmt.Sprintf("effect/removed-working-directory%s/readonly=%v", tail, ro)
+					r.Nontrivial(key)
+					if err == nil {
+						r.Violate(key+"/opened", fmt.Sprintf("from a removed working directory, NewPebbleScanner(%q) (read-only=%v), which leads into the protected directory %s, succeeded", "../(x40)"+strings.TrimPrefix(prot, "/")+tail, ro, prot), map[string]interface{}{"tail": tail})
+					}
+					if before != after {
+						r.Violate(key, fmt.Sprintf("from a removed working directory, NewPebbleScanner(%q) (error: %v) created or changed files inside the protected directory %s:\nbefore:\n%s\nafter:\n%s", "../(x40)"+strings.TrimPrefix(prot, "/")+tail, err, prot, before, after), map[string]interface{}{"tail": tail})
+						os.RemoveAll(filepath.Join(prot, "safe", "newdb2"))
+						os.RemoveAll(filepath.Join(prot, "brandnew2"))
+					}
+				}
+			}
+			os.Chdir(orig)
+			os.Setenv("PWD", orig)
+		}
 	}
 	r.Max("max_segments", int64(maxSeg))
 	for k, v := range classes {
